@@ -41,4 +41,116 @@ theorem init_inv (d : Bytes) (off : Nat) : Inv d (Reader.init d off) := by
 
 example : Inv (#[1, 2, 3] : Bytes) (Reader.init #[1, 2, 3] 36) := init_inv _ _
 
+
+/-- **Every byte read lies below `pkgEnd`** (and so inside the table): the two primitives through
+which the decoders touch the table return a byte only when `offset < pkgEnd`, and it is
+`d[offset]`. (All decoders are compositions of these primitives; none indexes `d` itself.) -/
+theorem reads_below_pkgEnd (d : Bytes) (r r' : Reader) (b : UInt8) :
+    (readByte d r = .ok (some b, r') → r.offset < r.pkgEnd ∧ d[r.offset]? = some b ∧ r' = { r with offset := r.offset + 1 }) ∧
+    (peekByte d r = .ok (some b, r') → r.offset < r.pkgEnd ∧ d[r.offset]? = some b ∧ r' = r) := by
+  constructor
+  · unfold readByte
+    split
+    · intro h; cases h
+    · rename_i he
+      split
+      · rename_i b' hb
+        intro h
+        simp only [pure, Except.pure, Except.ok.injEq, Prod.mk.injEq, Option.some.injEq] at h
+        obtain ⟨h1, h2⟩ := h
+        subst h1; subst h2
+        exact ⟨by simpa [Reader.eof] using he, hb, rfl⟩
+      · intro h; cases h
+  · unfold peekByte
+    split
+    · intro h; cases h
+    · rename_i he
+      split
+      · rename_i b' hb
+        intro h
+        simp only [pure, Except.pure, Except.ok.injEq, Prod.mk.injEq, Option.some.injEq] at h
+        obtain ⟨h1, h2⟩ := h
+        subst h1; subst h2
+        exact ⟨by simpa [Reader.eof] using he, hb, rfl⟩
+      · intro h; cases h
+
+/-- table sizes for which no `uint32` offset computation of the decoders can wrap
+(`offset + 4*segCount` with `segCount ≤ 255`): tables shorter than 4 GiB − 1 KiB -/
+def SizeOk (d : Bytes) : Prop := d.size + 1024 ≤ 4294967296
+
+instance (d : Bytes) : Decidable (SizeOk d) := by unfold SizeOk; exact inferInstance
+
+example : SizeOk (#[0x5b, 0x82] : Bytes) := by decide
+
+/-- **Returned slices lie inside the table** (lexical layer of `slices_in_table`): from every reader
+state inside the table, the `[]byte` built by `parseString`, by `parseNameString` and by
+`parseByteList` (for the two lengths the parser passes: `pkgEnd-offset` for a ByteList argument, and a
+declared Connection-buffer length that was checked against `pkgEnd`) starts and ends inside `d`;
+a successful `parseNameString` returns a slice that starts where the name started. -/
+theorem slices_in_table_partial (d : Bytes) (hd : SizeOk d) (r : Reader) (h : Inv d r) :
+    wp (parseString d) (fun a r' => Inv d r' ∧ SliceIn d a.1) r ∧
+    wp (parseNameString d) (fun a r' => Inv d r' ∧ SliceIn d a.1 ∧ (a.2 = .ok → a.1.data = some r.offset)) r ∧
+    (∀ n, r.offset + n ≤ r.pkgEnd → wp (parseByteListRaw d n) (fun sl r' => Inv d r' ∧ SliceIn d sl) r) ∧
+    wp (parseByteListRaw d (u32 (r.pkgEnd + 4294967296 - r.offset))) (fun sl r' => Inv d r' ∧ SliceIn d sl) r :=
+  ⟨parseString_slice d r h, parseNameString_slice d hd r h,
+   fun n hn => parseByteListRaw_slice d n r h (Or.inr hn),
+   parseByteListRaw_slice d _ r h (byteListArg_fits d (by unfold SizeOk at hd; omega) r h)⟩
+
+/-- what the parser stores: a value made from an in-table slice is in-table (a nil-data slice is
+stored as the empty slice, `runtime.convTslice`), and trimming a stored name to its last
+segment (`relocateNamedObjects`: `namepath[nameIndex:]`) keeps it in-table -/
+theorem stored_values_partial (d : Bytes) :
+    (∀ s : Slice, SliceIn d s → ∀ off len, AmlParser.sliceVal s = .bytes off len → off + len ≤ d.size) ∧
+    (∀ off len k, off + len ≤ d.size → k ≤ len → (off + k) + (len - k) ≤ d.size) := by
+  constructor
+  · intro s hs off len hv
+    unfold AmlParser.sliceVal at hv
+    split at hv
+    · simp only [Val.bytes.injEq] at hv; omega
+    · rename_i o ho
+      simp only [Val.bytes.injEq] at hv
+      have := hs o ho
+      omega
+  · intro off len k h hk; omega
+
+/-- executable form of the table checks (evaluated by the kernel in `opcode_table_sane`) -/
+def tableChecks : Bool :=
+  ((List.range 256).all fun op => opcodeMap.getD op 0 == badOpcode ||
+      (opcodeTable[opcodeMap.getD op 0]?).map (·.1) == some op) &&
+  ((List.range 256).all fun b => extendedOpcodeMap.getD b 0 == badOpcode ||
+      (opcodeTable[extendedOpcodeMap.getD b 0]?).map (·.1) == some (0xff + b)) &&
+  ((List.range 0x1ff).map fun op => pOpcodeTableIndex op false) == tableIndexStrict.toList &&
+  ((List.range 0x1ff).map fun op => pOpcodeTableIndex op true) == tableIndexInternal.toList &&
+  ((List.range 8).all fun i => (opcodeTable[pOpcodeTableIndex (0x1f6 + i) true]?).map (·.1) == some (0x1f6 + i)) &&
+  (opcodeTable.toList.all fun e => e.2.2.2.1 ≤ 7 && e.2.2.2.1 == (e.2.2.2.2.takeWhile (· ≠ 0)).length)
+
+set_option maxRecDepth 100000 in
+/-- **Generated opcode tables are sane** (facts printed by the compiled Go code on this run):
+every map entry is `badOpcode` or indexes inside the table and the row it names carries that opcode;
+the model's `pOpcodeTableIndex` (with the internal-opcode formula) agrees with the compiled function
+on every opcode value `0 … 0x1fe`, in both modes; the eight internal opcodes land on their own
+rows; `argCount()` is the number of leading non-zero argument nibbles and at most 7; table opcodes
+are distinct. -/
+theorem opcode_table_sane : tableChecks = true ∧ (opcodeTable.toList.map (·.1)).Nodup :=
+  ⟨by decide +kernel, by decide +kernel⟩
+
+/-- **Totality, lexical part** (`C12.total` restricted to the functions listed): for every table and
+every reader state inside it, `setPkgEnd`, `readByte`, `peekByte`, `unreadByte`, `dataPtr`,
+`setOffset`, `parsePkgLength`, `parseNumConstant n`, `parseString`, `parseNameString`, `nextOpcode`,
+`peekNextOpcode`, `parseByteList` return normally — never `.panic`, never `.outOfFuel` — where the two
+loops (`parseString`, the prefix loop of `parseNameString`) run on fuel `len + 1`, linear in the input.
+NOT covered (carried by the correspondence + mutational run only): the parser passes of
+`parseAML` (`parseObjectList` … `connectNonNamedObjArgs`), whose `.panic`/`.outOfFuel` freedom needs the
+object-tree invariant of C13 threaded through all passes. -/
+theorem total_partial (d : Bytes) (r : Reader) (h : Inv d r) :
+    (∀ n, ∃ a r', parseNumConstant d n r = .ok (a, r')) ∧ (∃ a r', parsePkgLength d r = .ok (a, r')) ∧
+    (∃ a r', parseString d r = .ok (a, r')) ∧ (∃ a r', parseNameString d r = .ok (a, r')) ∧
+    (∃ a r', nextOpcode d r = .ok (a, r')) ∧ (∃ a r', peekNextOpcode d r = .ok (a, r')) ∧
+    (∀ n, ∃ a r', parseByteListRaw d n r = .ok (a, r')) := by
+  have f : ∀ {α} {x : LexM α}, Safe d x → ∃ a r', x r = .ok (a, r') :=
+    fun hx => let ⟨a, r', e, _⟩ := hx.run r h; ⟨a, r', e⟩
+  exact ⟨fun n => f (safe_parseNumConstant d n), f (safe_parsePkgLength d), f (safe_parseString d),
+    f (safe_parseNameString d), f (safe_nextOpcode d), f (safe_peekNextOpcode d),
+    fun n => f (safe_parseByteListRaw d n)⟩
+
 end Firefly.C12
